@@ -1,3 +1,4 @@
 import Rp2.Props.C02
 #print axioms Rp2.C02.cover_and_no_overspend
 #print axioms Rp2.C02.succeeds_iff_feasible
+#print axioms Rp2.C02.pipeline_cover_and_no_overspend
